@@ -11,6 +11,7 @@ import (
 func main() {
 	in := flag.String("i", "", "ops file")
 	out := flag.String("o", "", "output file (stdout is framed under faketime, so always a file)")
+	ann := flag.String("a", "", "annotated ops file for the model driver (op line + now= / choice= oracles)")
 	flag.Parse()
 	fi, err := os.Open(*in)
 	if err != nil {
@@ -23,6 +24,17 @@ func main() {
 		os.Exit(2)
 	}
 	w := bufio.NewWriterSize(fo, 1<<20)
+	var aw *bufio.Writer
+	if *ann != "" {
+		fa, err := os.Create(*ann)
+		if err != nil {
+			fmt.Fprintln(os.Stderr, err)
+			os.Exit(2)
+		}
+		defer fa.Close()
+		aw = bufio.NewWriterSize(fa, 1<<20)
+		defer aw.Flush()
+	}
 	sc := bufio.NewScanner(fi)
 	sc.Buffer(make([]byte, 1<<20), 1<<28)
 	st := newState()
@@ -31,11 +43,19 @@ func main() {
 		toks := strings.Fields(line)
 		if len(toks) == 0 {
 			fmt.Fprintln(w, "")
+			if aw != nil {
+				fmt.Fprintln(aw, "")
+			}
 			continue
 		}
-		fmt.Fprintln(w, st.dispatch(toks))
-		if st.flushEach {
-			w.Flush()
+		o, a := st.dispatch(toks)
+		fmt.Fprintln(w, o)
+		if aw != nil {
+			fmt.Fprintln(aw, line+a)
+		}
+		w.Flush()
+		if aw != nil {
+			aw.Flush()
 		}
 	}
 	w.Flush()
@@ -43,15 +63,18 @@ func main() {
 }
 
 type state struct {
-	flushEach bool
+	inst    map[string]*instance
+	current string
 }
 
-func newState() *state { return &state{} }
+func newState() *state { return &state{inst: map[string]*instance{}} }
 
-func (st *state) dispatch(toks []string) string {
+func (st *state) dispatch(toks []string) (string, string) {
 	switch toks[0] {
 	case "ck", "dk", "ev":
-		return codecOp(toks)
+		return codecOp(toks), ""
+	case "open", "inst", "close", "reopen", "gc", "flush", "sleep", "dump", "api":
+		return st.apiOp(toks)
 	}
-	return "bad-op"
+	return "bad-op", ""
 }
